@@ -250,6 +250,10 @@ impl PoolImpl {
             return;
         };
         for (child_slot, child_hash) in children {
+            // the child's slot may have been decided and pruned since the child registered
+            if child_slot < self.first_unpruned_slot() {
+                continue;
+            }
             if let Some(output) = self
                 .slot_state(child_slot)
                 .notify_parent_certified(child_hash)
